@@ -27,14 +27,15 @@ Trace == ndJsonDeserialize(IOEnv.TRACE_FILE)
 
 VARIABLES l,      \* next trace line
           bad,    \* lines the specification does not explain
+          info,   \* for each of them: what the specification derives at that point
           skip    \* the rest of the current run is ignored
-tvars == <<l, bad, skip>>
+tvars == <<l, bad, info, skip>>
 
 Line == Trace[l]
 More == l <= Len(Trace)
 
 TInit ==
-    /\ l = 1 /\ bad = <<>> /\ skip = FALSE
+    /\ l = 1 /\ bad = <<>> /\ info = <<>> /\ skip = FALSE
     /\ sc = Base("10") /\ flow = "none" /\ phase = "idle" /\ net = NoMsg /\ jev = NoEv
     /\ hist = <<>> /\ nforge = 0 /\ pj = ""
 
@@ -100,26 +101,35 @@ Agrees(x, n, h, j, p) ==
       [] x.a = "JoinDone" -> p = x.res /\ x.note = ""
       [] OTHER -> FALSE
 
+Reject(a, want, why) ==
+    /\ bad' = Append(bad, l)
+    /\ info' = Append(info, [l |-> l, a |-> a, want |-> want, why |-> why])
+
 Load ==
     /\ More /\ Line.a = "begin"
     /\ sc' = Line.sc /\ flow' = Line.flow /\ phase' = "start" /\ net' = NoMsg /\ jev' = NoEv
     /\ hist' = <<>> /\ nforge' = 0 /\ pj' = ""
-    /\ bad' = IF phase \in {"idle", "done"} \/ skip THEN bad ELSE Append(bad, l)   \* the previous run never finished
+    /\ IF phase \in {"idle", "done"} \/ skip THEN UNCHANGED <<bad, info>>
+       ELSE Reject("unfinished", "", {})                                        \* the previous run never finished
     /\ skip' = FALSE /\ l' = l + 1
 
 Skipping ==
     /\ More /\ skip /\ Line.a # "begin"
-    /\ l' = l + 1 /\ UNCHANGED <<bad, skip, vars>>
+    /\ l' = l + 1 /\ UNCHANGED <<bad, info, skip, vars>>
+
+\* what the specification says the handler / PerformJoin does at this step
+Derived(h) == IF "res" \in DOMAIN h THEN h.res ELSE ""
+Failing(h) == IF "why" \in DOMAIN h THEN h.why ELSE {}
 
 StepLine ==
     /\ More /\ ~skip /\ Line.a # "begin"
     /\ IF Enabled(Line) = TRUE
        THEN /\ Do(Line)
             /\ IF Agrees(Line, net', Last(hist'), jev', pj') = TRUE
-               THEN UNCHANGED <<bad, skip>>
-               ELSE bad' = Append(bad, l) /\ skip' = TRUE
+               THEN UNCHANGED <<bad, info, skip>>
+               ELSE Reject(Line.a, Derived(Last(hist')), Failing(Last(hist'))) /\ skip' = TRUE
        ELSE /\ UNCHANGED vars
-            /\ bad' = Append(bad, l) /\ skip' = TRUE
+            /\ Reject(Line.a, "not-enabled", {}) /\ skip' = TRUE
     /\ l' = l + 1
 
 TNext == Load \/ Skipping \/ StepLine
@@ -128,7 +138,9 @@ TSpec == TInit /\ [][TNext]_<<vars, tvars>>
 \* the last run of the trace must have finished as well
 Report ==
     (l = Len(Trace) + 1) =>
-        LET b == IF phase \in {"idle", "done"} \/ skip THEN bad ELSE Append(bad, Len(Trace))
-        IN  b # <<>> => PrintT("TRACE_REJECTED " \o ToJson(b))
+        LET open == ~(phase \in {"idle", "done"} \/ skip)
+            b == IF open THEN Append(bad, Len(Trace)) ELSE bad
+            i == IF open THEN Append(info, [l |-> Len(Trace), a |-> "unfinished", want |-> "", why |-> {}]) ELSE info
+        IN  b # <<>> => (PrintT("TRACE_REJECTED " \o ToJson(b)) /\ PrintT("TRACE_INFO " \o ToJson(i)))
 TraceAccepted == TLCGet("stats").diameter - 1 >= Len(Trace)
 =============================================================================
